@@ -1662,4 +1662,88 @@ Proof.
     + eapply frame_finish; try eassumption. intros k v I. right. apply (KP k v I).
 Qed.
 
+
+Theorem dc_specB : forall f, RecSpecB (dc f) f.
+Proof.
+  induction f as [|f IH].
+  - split; [apply (dc_spec h0 seeds Hclosed Hitems Hnames Hkeys)|]. intros s v _ _ _ H. lia.
+  - simpl. apply dc_step2. exact IH.
+Qed.
+
+(* ---- the relation recorded by a whole run ------------------------------------------------------ *)
+
+Hypothesis H2nodup : forall o ob, hget h0 o = Some ob -> NoDup (map fst (obody ob)).
+
+Lemma vrel_inj : forall s k k0 k', Inv2 s -> vrel (sc s) k k' -> vrel (sc s) k0 k' -> k = k0.
+Proof.
+  intros s [p|a] [q|b] [r|c] J V1 V2; simpl in *; try contradiction; try congruence.
+  destruct V1 as [V1|[E1 R1]]; destruct V2 as [V2|[E2 R2]].
+  - f_equal. eapply j_uniq; eassumption.
+  - subst. destruct (j_scr _ J a c V1). lia.
+  - subst. destruct (j_scr _ J b c V2). lia.
+  - congruence.
+Qed.
+
+Lemma nodup_fst_inj : forall (b : list (val * val)) k v v', NoDup (map fst b) -> In (k, v) b -> In (k, v') b -> v = v'.
+Proof.
+  induction b as [|[k0 v0] r IH]; simpl; intros k v v' ND I1 I2; [contradiction|].
+  inversion ND as [|? ? NI ND']; subst.
+  destruct I1 as [I1|I1]; destruct I2 as [I2|I2].
+  - congruence.
+  - inversion I1; subst. exfalso. apply NI. apply in_map_iff. exists (k, v'). auto.
+  - inversion I2; subst. exfalso. apply NI. apply in_map_iff. exists (k, v). auto.
+  - eapply IH; eassumption.
+Qed.
+
+Definition PairOK (c : list (Z * Z)) (h' : heap) (a b : Z) : Prop :=
+  0 <= a < n0 /\ n0 <= b < hlen h' /\
+  exists oa ob, hget h0 a = Some oa /\ hget h' b = Some ob /\ ocls oa = ocls ob /\ okind oa = okind ob
+    /\ (forall k' v', In (k', v') (obody ob) ->
+          rebuilt (okind oa) k' \/ exists k v, In (k, v) (obody oa) /\ vrel c k k' /\ vrel c v v')
+    /\ (forall k v, In (k, v) (obody oa) ->
+          not_carried (okind oa) k \/ exists k' v', In (k', v') (obody ob) /\ vrel c k k' /\ vrel c v v').
+
+Lemma pair_ok : forall s a b, Inv2 s -> In (a, b) (sc s) -> Present (sc s) (sh s) a b -> PairOK (sc s) (sh s) a b.
+Proof.
+  intros s a b J I PR. destruct (j_scr _ J a b I) as [Ra Rb].
+  destruct (j_sound _ J a b I) as [oa [ob [Ga [Gb [C [K S]]]]]].
+  split; [exact Ra|]. split; [exact Rb|]. exists oa, ob. repeat split; auto.
+  intros k v Ik. destruct (PR oa ob Ga Gb k v Ik) as [NC|[k' [v' [I' V']]]]; [left; exact NC|].
+  destruct (S k' v' I') as [RB|[k0 [v0 [I0 [Vk Vv]]]]].
+  - left. destruct RB as [[AK E]|[KS E]].
+    + subst k'. apply vrel_prim_inv2 in V'. subst k. left. split; [assumption | reflexivity].
+    + right. split; [exact KS|]. destruct E as [E|E]; subst k'; apply vrel_prim_inv2 in V'; subst k; discriminate.
+  - right. exists k', v'. split; [exact I'|]. split; [exact V'|].
+    assert (k = k0) by (eapply vrel_inj; eassumption). subst k0.
+    assert (v0 = v) by (eapply nodup_fst_inj; [apply (H2nodup a oa Ga) | exact I0 | exact Ik]). subst v0. exact Vv.
+Qed.
+
+Lemma init_inv2 : (forall x, In x seeds -> 0 <= x < n0) -> Inv2 (init_st h0 seeds).
+Proof.
+  intros Hs. constructor; simpl.
+  - intros a b [].
+  - intros a a' b [].
+  - intros a b E Hb. apply alookup_seed in E. destruct E as [E I]. subst b. specialize (Hs a I). lia.
+  - intros a b [].
+  - intros y ob Hy G. apply hget_Some_range in G. lia.
+Qed.
+
+Theorem run_bisim : forall fuel root s' y, (forall x, In x seeds -> 0 <= x < n0) -> Inv (init_st h0 seeds) ->
+  0 <= root < n0 -> ~ owned root -> (length h0 < fuel)%nat -> (U (init_st h0 seeds) <= length h0)%nat ->
+  run_seeded fuel h0 seeds root = Ok (s', R y) ->
+  vrel (sc s') (R root) (R y)
+  /\ (forall a b, In (a, b) (sc s') -> PairOK (sc s') (sh s') a b)
+  /\ (forall a a' b, In (a, b) (sc s') -> In (a', b) (sc s') -> a = a').
+Proof.
+  intros fuel root s' y Hs IV0 Hr NO Hf HU E. unfold run_seeded in E.
+  destruct (dc_specB fuel) as [_ RB].
+  destruct (RB (init_st h0 seeds) (R root) IV0 (init_inv2 Hs)) with (s' := s') (v' := R y) as [J [F [V NP]]].
+  - split; [exact Hr | exact NO].
+  - lia.
+  - exact E.
+  - split; [exact V|]. split; [|exact (j_uniq _ J)].
+    intros a b I. apply pair_ok; [exact J | exact I|]. apply NP; [exact I|].
+    destruct (j_scr _ J a b I) as [_ Rb]. simpl. lia.
+Qed.
+
 End Iso.
